@@ -157,6 +157,59 @@ def series_case(v, kind, N, opts):
             return dict(obs=None, asserts=[("series_draws_satisfy_schema", True)], facts=dict(kind=kind, custom=opts.get("custom"), verdict="accept", reason=None))
 
 
+def frame_case(v, N, opts):
+    """dataframe level (C13): the REAL dataframe_strategy (column expansion, joint `unique` handling, column strategies, pdst.data_frames,
+    dtype conversion, null masks, fallback filters) on the contract stubs; every frame that satisfies the collected constraints must
+    pass the REAL validation of the schema that produced the strategy."""
+    import pandera.strategies.pandas_strategies as PS
+
+    lo = v.int("lo", -5, 5)
+    null_a, uniq_a = v.bool("null_a"), v.bool("uniq_a")
+    joint = ["a", "b"] if opts.get("joint") else None
+    cb = [Check.isin([1, 2, 3])]
+    if opts.get("custom"):
+        cb.append(Check(lambda s: s.notna().all(), ignore_na=False))
+    schema = pa.DataFrameSchema({"a": pa.Column(float, Check.ge(lo), nullable=null_a, unique=uniq_a), "b": pa.Column(float, cb, nullable=v.bool("null_b"))}, unique=joint)
+    if v.sym:
+        saved = (PS.st, PS.npst, PS.re, PS.pdst, PS.null_dataframe_masks, PS.composite)
+        PS.st, PS.npst, PS.re, PS.pdst = symstrat.ST(), symstrat.NPST(), symstrat.RE(), symstrat.PDST()
+        PS.null_dataframe_masks, PS.composite = symstrat.null_dataframe_masks_stub, symstrat.composite_stub
+        symstrat.reset()
+        try:
+            with warnings.catch_warnings():
+                warnings.simplefilter("ignore")
+                strat = schema.strategy(size=N)
+        finally:
+            PS.st, PS.npst, PS.re, PS.pdst, PS.null_dataframe_masks, PS.composite = saved
+        from symx import eng
+
+        for c in strat.cons:
+            eng().constrain(c)
+        o = H.outcome(lambda: schema.validate(strat.frame))
+        return dict(obs=None, asserts=[("frame_draws_satisfy_schema", v.holds(o["kind"] == "accept"))],
+                    facts=dict(joint=bool(joint), custom=bool(opts.get("custom")), verdict=o["kind"], reason=o.get("reason")))
+    from hypothesis import HealthCheck, find, settings
+    from hypothesis.errors import NoSuchExample, Unsatisfiable
+
+    with warnings.catch_warnings():
+        warnings.simplefilter("ignore")
+        strat = schema.strategy(size=N)
+
+        def rejected(d):
+            try:
+                schema.validate(d)
+                return False
+            except pa.errors.SchemaError:
+                return True
+
+        try:
+            bad = find(strat, rejected, settings=settings(max_examples=3000, database=None, deadline=None, suppress_health_check=list(HealthCheck)))
+            return dict(obs=None, asserts=[("frame_draws_satisfy_schema", False)],
+                        facts=dict(joint=bool(joint), custom=bool(opts.get("custom")), verdict="SchemaError", reason=None, _draw=bad.to_dict("list")))
+        except (NoSuchExample, Unsatisfiable):
+            return dict(obs=None, asserts=[("frame_draws_satisfy_schema", True)], facts=dict(joint=bool(joint), custom=bool(opts.get("custom")), verdict="accept", reason=None))
+
+
 def _real_check_passes(checks, el, kind):
     import pandas as pd
 
@@ -168,7 +221,7 @@ def run_template(t, tier, seed):
     from hypothesis import HealthCheck, Phase, find, given, settings
     from hypothesis.errors import NoSuchExample, Unsatisfiable
 
-    if t.tid.startswith("SER/"):
+    if t.tid.startswith(("SER/", "DF/")):
         from pvrun import explore_template
 
         return explore_template(t, tier, seed)
@@ -305,6 +358,15 @@ def replay(c):
     from hypothesis import HealthCheck, find, settings
     from hypothesis.errors import NoSuchExample, Unsatisfiable
 
+    if c["tid"].startswith("DF/"):
+        N, opts = c["args"]
+        r = frame_case(H.V(None, H.Vals(c["vals"])), N, opts)
+        print("dataframe strategy:", c["tid"], "parameters:", c["vals"], "facts:", r["facts"])
+        if not dict(r["asserts"])["frame_draws_satisfy_schema"]:
+            print(f"VIOLATION property=C13 replay={c.get('_path', '')}")
+            return 1
+        print("not reproduced")
+        return 0
     if c["tid"].startswith("SER/"):
         kind, N, opts = c["args"]
         r = series_case(H.V(None, H.Vals(c["vals"])), kind, N, opts)
@@ -347,4 +409,8 @@ def templates(tier, seed):
         for N in ((2,) if tier == "quick" else (1, 2, 3)):
             for custom in (None, "no_nulls", "first_is_max") if kind == "float" else (None, "no_nulls"):
                 ts.append(Template(f"SER/{kind}/custom={custom}/N={N}", series_case, (kind, N, dict(custom=custom)), replay=False))
+    # dataframe level: the assembly of dataframe_strategy (joint uniqueness, null masks, fallback filters)
+    for N in ((2,) if tier == "quick" else (1, 2, 3)):
+        for o in (dict(), dict(joint=True), dict(custom=True), dict(joint=True, custom=True)):
+            ts.append(Template("DF/" + ("+".join(o) or "plain") + f"/N={N}", frame_case, (N, o), replay=False))
     return ts
